@@ -6,7 +6,7 @@ import struct
 from harness import core
 from harness.core import Z, zpairs
 from harness.main import Finding, Suite
-from harness.readers import call, judge_read
+from harness.readers import call, judge_read, keep_alive
 
 PROPERTY = "C04"
 PROPS_FILE = "Props/C04.v"
@@ -203,7 +203,7 @@ class VhdSuite(Suite):
         fh = build_image(case)
         out = {"open": None, "reqs": []}
         try:
-            v = VHD(fh)
+            v = keep_alive(VHD(fh))
         except Exception as e:  # noqa: BLE001
             out["open"] = {"outcome": "exc", "exc": type(e).__name__, "msg": str(e)[:200]}
             return out
